@@ -55,6 +55,7 @@ class World:
         self.iters = {}       # (activity, channel) -> async iterator of a consumer
         self.ticks = {}       # ticker key -> date of its last tick
         self.horizon = horizon  # largest date of the model configuration being replayed
+        self.strict = horizon != float('inf') and False
         self.pipe = None
         mk = Resources if reskind == 'res' else Capacities
         self.pools = {i + 1: mk(a=resinit) for i in range(nres)}   # pool id -> supply / open share
@@ -188,6 +189,28 @@ class Puppet:
         else:
             self.emit('end', how='ok', exc=[])
 
+    def resolve(self, op):
+        """generated programs refer to tasks / scopes relatively (k = -n: the n-th most recently spawned task);
+        an operation whose reference does not exist (yet) is skipped"""
+        w = self.w
+        if op.get('k', 1) < 0:
+            k = w.nact + 1 + op['k']
+            if k <= w.nroots or k not in w.tasks or (op['op'] == 'await_t' and k == self.a):
+                return None
+            op = dict(op, k=k)
+        if op['op'] == 'await_s' and op['s'] < 0:
+            s = w.nsc + 1 + op['s']
+            if s < 1:
+                return None
+            op = dict(op, s=s)
+        if op['op'] == 'cstop' and (self.a, op['c']) not in w.iters:
+            return None
+        if op['op'] in ('inc', 'dec') and 'amt' in op and op.get('p') in w.pools and not w.strict:
+            level = w.pools[op['p']].levels.a
+            amt = min(op['amt'], level) if op['op'] == 'dec' else max(0, min(op['amt'], 3 - level))
+            op = dict(op, amt=amt)
+        return op
+
     async def block(self):
         """run ops until an explicit leave (-> False) or the end of the program (-> True)"""
         while self.i < len(self.ops):
@@ -195,6 +218,9 @@ class Puppet:
             self.i += 1
             if op['op'] == 'leave':
                 return False
+            op = self.resolve(op)
+            if op is None:
+                continue
             await getattr(self, 'op_' + op['op'])(op)
         return True
 
@@ -507,6 +533,13 @@ class Puppet:
                 wk.close()
 
     # ------------------------------------------------------------ tickers
+    async def op_mktick(self, op):
+        """create the ticker object now, iterate it later: the grid is anchored where the iteration starts"""
+        key = (self.a, 'tick', op['i'])
+        if key not in self.w.iters:
+            self.w.iters[key] = (interval if op['kind'] == 'interval' else delay)(op['p']).__aiter__()
+        self.emit('p', op='mktick', i=op['i'])
+
     async def op_tick(self, op):
         key = (self.a, 'tick', op['i'])
 
@@ -650,6 +683,8 @@ class Puppet:
                 args['never'] = True
             else:
                 args['due'] = max(now_, date)
+        if kind == 'until_d':
+            args['due'] = time.now + op['d']
         self.emit('b', op='open', s=s, **args)
         phase = 'enter'
         try:
@@ -717,11 +752,17 @@ def run_program(prog, nroots, nflags=2, nlocks=2, start=0, nqueues=2, nchans=2, 
                    'where': last or '', 'msg': str(err)[:120]}
     finally:
         world.frozen = True
-        for coro in roots:
+        # tear down what is still suspended HERE, outside any simulation: left to the garbage collector, a leftover
+        # would be closed during some later run and its clean-up code would schedule into that run's loop
+        leftovers = [t.__runner__ for _, t in sorted(world.tasks.items(), reverse=True)] + roots
+        for coro in leftovers:
             try:
                 coro.close()
             except BaseException:   # clean-up outside the simulation may touch the missing loop
                 pass
+        if outcome['k'] == 'livelock' or outcome.get('internal'):
+            import gc
+            gc.collect()
     # end-of-run record (harness event, not part of the model's `ev`)
     fin = {'e': 'fin', 'a': 0, 'ok': outcome['k'] == 'ok', 'out': outcome}
     if outcome['k'] == 'ok':
